@@ -151,9 +151,16 @@ Definition script_agree (v r : scriptobs) : Prop := v = r.
 Definition clause_stdout : N := 18.
 Definition clause_status : N := 19.
 Definition clause_files : N := 20.
+Definition clause_unfinished : N := 21.   (* the simulated run did not finish (deadlock / out of
+                                             virtual steps) although the real run did *)
+
+(* status -1 = "did not finish" (harness: the simulated shell's task never
+   completed: every process is blocked, or the step budget ran out) *)
+Definition unfinished (o : scriptobs) : bool := Z.eqb (sc_status o) (-1).
 
 Definition script_oracle (v r : scriptobs) : option N :=
-  if negb (str_eqb (sc_stdout v) (sc_stdout r)) then Some clause_stdout
+  if unfinished v && negb (unfinished r) then Some clause_unfinished
+  else if negb (str_eqb (sc_stdout v) (sc_stdout r)) then Some clause_stdout
   else if negb (Z.eqb (sc_status v) (sc_status r)) then Some clause_status
   else if negb (tree_eqb (sc_tree v) (sc_tree r)) then Some clause_files
   else None.
